@@ -41,6 +41,7 @@ impl Log for Recorder {
     fn flush(&self) {}
 }
 static RECORDER: Recorder = Recorder;
+const TARGET_NAME: &str = "from::a::constant";
 '''
 
 LOCALS = '    let x = 5; let val = "v"; let user = 42u64; let n = 1.5f64; let flag = true; let cfg = Cfg { len: 3, id: 9, name: "nm" };\n'
@@ -50,7 +51,7 @@ KV_SHAPES = ["ident", "field", "uint", "float", "bool", "str", "str_semi", "str_
 MSG_SHAPES = ["plain", "placeholder", "escquote", "unicode", "reflike_inside", "commentish", "parens", "empty", "braces", "named_inline",
               "width", "leading_space"]
 FEATS = {
-    "path": ["bare", "qual"], "level": ["info", "warn", "error"], "target": ["none", "plain", "colons", "slashes", "escq", "blockopen"],
+    "path": ["bare", "qual"], "level": ["info", "warn", "error"], "target": ["none", "plain", "colons", "slashes", "escq", "blockopen", "expr_const", "expr_macro", "expr_concat", "expr_format"],
     "nkv": [0, 1, 2, 3], "kv0": KV_SHAPES, "msg": MSG_SHAPES, "lay": ["tight", "space", "nl", "nl0", "blockc", "linec"],
     "directive": ["none", "none", "none", "ignore", "no-kvp"], "trailcomma": [False, True],
 }
@@ -108,8 +109,13 @@ def build_program(rows, seed, structured):
         macro = f["level"] if f["path"] == "bare" else "log::" + f["level"]
         parts = [macro, "!(", L()]
         if f["target"] != "none":
-            t = {"plain": "app", "colons": "app::db", "slashes": "http://svc/x", "escq": 'a\\"b', "blockopen": "glob/* and */ too"}[f["target"]]
-            parts += ['target: "%s"' % t, L(), ",", L() or " "]
+            if f["target"].startswith("expr_"):
+                te = {"expr_const": "TARGET_NAME", "expr_macro": "module_path!()", "expr_concat": 'concat!(module_path!(), "::net")',
+                      "expr_format": '&format!("t{}", x)'}[f["target"]]
+                parts += ["target: %s" % te, L(), ",", L() or " "]
+            else:
+                t = {"plain": "app", "colons": "app::db", "slashes": "http://svc/x", "escq": 'a\\"b', "blockopen": "glob/* and */ too"}[f["target"]]
+                parts += ['target: "%s"' % t, L(), ",", L() or " "]
         nkv = f["nkv"]
         keys = rnd.sample(KEYS, nkv)
         kvs = []
@@ -143,6 +149,8 @@ def build_program(rows, seed, structured):
         out.append(body)
         calls.append("    s%d();" % i)
         effect = "none" if f["directive"] == "ignore" else ("msg" if (not structured or f["directive"] == "no-kvp") else "kv")
+        if f["target"].startswith("expr_") and effect != "none":
+            effect = "either:" + effect     # outside the canonical (string-target) space: untouched or faithfully edited
         meta.append({"marker": marker, "stmt": stmt, "effect": effect, "feat": f})
     out.append("fn main() {\n    log::set_logger(&RECORDER).unwrap();\n    log::set_max_level(log::LevelFilter::Trace);\n" + "\n".join(calls) + "\n}\n")
     return "\n".join(out), meta
@@ -206,6 +214,10 @@ def compare(r, structured):
         if b[0] != a[0] or b[1] != a[1]:
             v.append(("level-or-target-changed", i, {"before": b[:2], "after": a[:2]}))
             continue
+        if eff.startswith("either:"):
+            if a == b:
+                continue
+            eff = eff.split(":", 1)[1]
         if eff == "none":
             if a != b:
                 v.append(("ignored-statement-changed", i, {"before": b, "after": a}))
